@@ -138,6 +138,7 @@ func c13Scenarios() []goxScenario {
 }
 
 type c13Payload struct {
+	Family   string      `json:"family,omitempty"` // the family that recorded the case (empty: the scenarios of this file)
 	Scenario goxScenario `json:"scenario"`
 	Choices  []int       `json:"choices"`
 	Free     bool        `json:"free_running"`
@@ -153,6 +154,9 @@ func c13Run(c *core.Ctx) {
 	if w.path == "" {
 		c.Incomplete("GORACE log_path is not set: race reports cannot be collected")
 		return
+	}
+	if f := os.Getenv("VERIF_C13_FAMILY"); f != "" && f != "main" {
+		return // development: one family alone ("main" = the scenarios of this file alone)
 	}
 	prev := query.GetGoroutineManager().MinimumRequiredPerCore
 	query.GetGoroutineManager().MinimumRequiredPerCore = 2
@@ -268,12 +272,18 @@ func c13Replay(c *core.Ctx, payload json.RawMessage) {
 	query.GetGoroutineManager().MinimumRequiredPerCore = 2
 	defer func() { query.GetGoroutineManager().MinimumRequiredPerCore = prev }()
 	dir := core.Scratch("c13")
+	sc := p.Scenario
+	if prep := c13FamilyPrep[p.Family]; prep != nil {
+		var done func()
+		sc, done = prep(sc)
+		defer done()
+	}
 	w.newReports()
 	for i := 0; i < 3; i++ {
 		if p.Free {
-			goxRunOnce(dir, p.Scenario, 4, false, nil)
+			goxRunOnce(dir, sc, 4, false, nil)
 		} else {
-			goxRunOnce(dir, p.Scenario, p.Scenario.CPU, true, p.Choices)
+			goxRunOnce(dir, sc, sc.CPU, true, p.Choices)
 		}
 	}
 	for _, r := range w.newReports() {
